@@ -179,6 +179,16 @@ SIG = {
     'to_wif': ('keys.py', 'PrivateKey.to_wif',
                [('hashlib_sha256', 'Bytes → Bytes'), ('b58encode', 'Bytes → String'), ('wif_prefix', 'Bytes'),
                 ('self_key_bytes', 'Bytes'), ('compressed', 'Bool')], 'String'),
+    # Base58Check addresses: base58check as parameters, the two version bytes of the configured network as parameters, the address
+    # class (get_type()) as the string it returns
+    'is_address_valid': ('keys.py', 'Address._is_address_valid',
+                         [('hashlib_sha256', 'Bytes → Bytes'), ('b58decode', 'String → Except PyErr Bytes'), ('self_type', 'String'),
+                          ('p2pkh_prefix', 'Bytes'), ('p2sh_prefix', 'Bytes'), ('address', 'String')], 'Bool'),
+    'address_to_hash160': ('keys.py', 'Address._address_to_hash160',
+                           [('b58decode', 'String → Except PyErr Bytes'), ('address', 'String')], 'Bytes'),
+    'address_to_string': ('keys.py', 'Address.to_string',
+                          [('hashlib_sha256', 'Bytes → Bytes'), ('b58encode', 'Bytes → String'), ('self_type', 'String'),
+                           ('p2pkh_prefix', 'Bytes'), ('p2sh_prefix', 'Bytes'), ('self_hash160', 'Bytes')], 'String'),
     # taproot signing: the key object is its 32 secret bytes, the public-key object its 64 bytes x || y
     'sign_taproot_input': ('keys.py', 'PrivateKey._sign_taproot_input',
                            [('hashlib_sha256', 'Bytes → Bytes'), ('OPS', 'List (String × Bytes)'), ('self_key_bytes', 'Bytes'),
@@ -256,6 +266,7 @@ CALLS = {'ripemd160': 'rmd_ripemd160', 'rol': 'rmd_rol', 'fi': 'rmd_fi', '_push_
          'bech32_polymod': 'bech32_polymod', 'bech32_hrp_expand': 'bech32_hrp_expand'}
 IDENT = {'h_to_b', 'b_to_h'}  # hex strings that denote data are modelled as the bytes they denote
 CONSTS = {}                   # filled from the evaluated constants module
+CONST_STRS = {}               # string constants (as Python strings)
 
 
 def find(tree, qual):
@@ -393,7 +404,7 @@ class Tr:
     def __init__(s, name, file=None):
         s.name = name; s.tmp = 0; s.pre = []; s.declared = set(); s.points = set(); s.tuple5 = set()
         s.toklists = set(); s.tokvars = set(); s.optables = set(); s.byteslists = set(); s.reclists = {}; s.recvars = {}; s.revtables = set()
-        s.hoisted = set(); s.selfcopies = set(); s.scriptlists = set(); s.fmtvars = {}; s.fmtpre = {}; s.hoisting = False; s.ratvars = set(); s.optvars = set(); s.charvars = set(); s.hexvars = set(); s.tweak_point_ctx = False; s.treevars = {}; s.pairvars = set(); s.strvars = set()
+        s.hoisted = set(); s.selfcopies = set(); s.scriptlists = set(); s.fmtvars = {}; s.fmtpre = {}; s.hoisting = False; s.ratvars = set(); s.optvars = set(); s.charvars = set(); s.hexvars = set(); s.tweak_point_ctx = False; s.treevars = {}; s.pairvars = set(); s.strvars = set(); s.revars = {}
         s.fconsts = FILE_CONSTS.get(file, {})
 
     def fail(s, n, why):
@@ -638,6 +649,28 @@ class Tr:
         return None
 
     def e_wif(s, n):
+        import re as _re
+        if (isinstance(n, ast.Subscript) and isinstance(n.value, ast.Name) and n.value.id in ('NETWORK_P2PKH_PREFIXES', 'NETWORK_P2SH_PREFIXES')
+                and isinstance(n.slice, ast.Call) and getattr(n.slice.func, 'id', '') == 'get_network' and not n.slice.args):
+            return 'p2pkh_prefix' if 'P2PKH' in n.value.id else 'p2sh_prefix'
+        if (isinstance(n, ast.Call) and isinstance(n.func, ast.Attribute) and n.func.attr == 'get_type' and not n.args
+                and isinstance(n.func.value, ast.Name) and n.func.value.id == 'self' and 'self_type' in s.params):
+            return 'self_type'
+        if isinstance(n, ast.Name) and n.id in ('P2PKH_ADDRESS', 'P2SH_ADDRESS') and n.id not in s.declared:
+            return lean_str(CONST_STRS[n.id])
+        if (isinstance(n, ast.Call) and isinstance(n.func, ast.Attribute) and n.func.attr == 'search' and isinstance(n.func.value, ast.Name)
+                and n.func.value.id == 're' and len(n.args) == 2 and isinstance(n.args[0], ast.Name) and n.args[0].id in s.revars
+                and isinstance(n.args[1], ast.Name) and n.args[1].id == 'address'):
+            # re.search(r"[^ABC…]", s): is there a character outside the set
+            return f'(List.any (String.toList address) (fun c => !(List.contains ({lean_str(s.revars[n.args[0].id])}.toList) c)))'
+        if (isinstance(n, ast.Call) and isinstance(n.func, ast.Name) and n.func.id == 'len' and len(n.args) == 1
+                and isinstance(n.args[0], ast.Name) and n.args[0].id == 'address'):
+            return '((List.length (String.toList address) : Nat) : Int)'
+        if (isinstance(n, ast.Call) and isinstance(n.func, ast.Attribute) and n.func.attr == 'encode' and isinstance(n.func.value, ast.Name)
+                and n.func.value.id == 'address' and 'address' in s.params):
+            return 'address'
+        if isinstance(n, ast.Attribute) and isinstance(n.value, ast.Name) and n.value.id == 'self' and n.attr == 'hash160' and 'self_hash160' in s.params:
+            return 'self_hash160'
         # NETWORK_WIF_PREFIXES[get_network()]
         if (isinstance(n, ast.Subscript) and isinstance(n.value, ast.Name) and n.value.id == 'NETWORK_WIF_PREFIXES'
                 and isinstance(n.slice, ast.Call) and getattr(n.slice.func, 'id', '') == 'get_network' and not n.slice.args):
@@ -685,7 +718,7 @@ class Tr:
         return None
 
     def e(s, n):
-        if s.name in ('from_wif', 'to_wif'):
+        if s.name in ('from_wif', 'to_wif', 'is_address_valid', 'address_to_hash160', 'address_to_string'):
             r = s.e_wif(n)
             if r is not None: return r
         if s.name == 'sign_input':
@@ -1036,7 +1069,7 @@ class Tr:
             if nm == 'hex' and s.name in PARSERS and isinstance(f, ast.Attribute): return s.isbytes(f.value)
             if nm == 'full_pubkey_gen' and s.name in TWEAKFUNS: return True
             if s.name == 'sign_input' and nm in ('sign_digest_deterministic', 'sigencode_der'): return True
-            if s.name in ('from_wif', 'to_wif') and nm in ('b58decode',): return True
+            if s.name in ('from_wif', 'to_wif', 'is_address_valid', 'address_to_hash160') and nm in ('b58decode',): return True
             if s.name == 'to_wif' and nm == 'to_bytes' and isinstance(f, ast.Attribute) and getattr(f.value, 'id', '') == 'self': return True
             if s.name in TREEFUNS and nm in ('get_tag_hashed_merkle_root', 'tapleaf_tagged_hash', 'tapbranch_tagged_hash', 'tagged_hash',
                                              'tweak_taproot_privkey', 'schnorr_sign', 'to_string'): return True
@@ -1055,7 +1088,7 @@ class Tr:
         if isinstance(n, ast.Constant) and isinstance(n.value, bool): return t
         if s.name in STRFUNS and isinstance(n, ast.Call) and isinstance(n.func, ast.Name) and n.func.id in ('any', 'all'): return t
         if isinstance(n, ast.Call) and isinstance(n.func, ast.Name) and n.func.id in ('isinstance', 'is_infinite', 'has_even_y', 'schnorr_verify'): return t
-        if t.startswith('(Py.tokInTable') or t.startswith('(Py.inTableB') or t.startswith('(Py.bytesLt'): return t
+        if t.startswith('(Py.tokInTable') or t.startswith('(Py.inTableB') or t.startswith('(Py.bytesLt') or t.startswith('(List.any (String.toList'): return t
         if isinstance(n, ast.Name) and n.id in s.boolvars: return t
         if isinstance(n, ast.Attribute) and 'self_' + n.attr in s.boolvars: return t
         if s.isbytes(n): return f'(!({t}).isEmpty)'
@@ -1245,7 +1278,20 @@ class Tr:
             if isinstance(tg, ast.Name) and tg.id == 'wif_utf':
                 v = s.e(st.value); s.declared.add('wif_utf'); s.strvars.add('wif_utf')
                 return s.flush(ind) + [f'{ind}let wif_utf := {v}']
-        if s.name == 'to_wif' and isinstance(st, ast.Assign) and len(st.targets) == 1 and isinstance(st.targets[0], ast.Name) \
+        if s.name in ('is_address_valid', 'address_to_hash160') and isinstance(st, ast.Assign) and len(st.targets) == 1 \
+                and isinstance(st.targets[0], ast.Name):
+            nm = st.targets[0].id
+            import re as _re
+            if isinstance(st.value, ast.Constant) and isinstance(st.value.value, str):
+                m_ = _re.fullmatch(r'\[\^([0-9A-Za-z]+)\]', st.value.value)
+                if not m_: s.fail(st, 'regular expression other than a negated set of alphanumerics')
+                s.revars[nm] = m_.group(1)
+                return []
+            if (isinstance(st.value, ast.Call) and isinstance(st.value.func, ast.Attribute) and st.value.func.attr == 'encode'
+                    and getattr(st.value.func.value, 'id', '') == 'address'):
+                s.declared.add(nm); s.strvars.add(nm)
+                return [f'{ind}let {nm} := address']
+        if s.name in ('to_wif', 'address_to_string') and isinstance(st, ast.Assign) and len(st.targets) == 1 and isinstance(st.targets[0], ast.Name) \
                 and isinstance(st.value, ast.Call) and getattr(st.value.func, 'id', '') == 'b58encode':
             nm = st.targets[0].id
             v = s.e(st.value); s.declared.add(nm); s.strvars.add(nm)
@@ -1871,6 +1917,7 @@ def main():
             raise Unsupported('utils.py no longer takes G / point_add / point_mul / full_pubkey_gen from schnorr.py')
         CONSTS['Secp256k1Params._order'] = f'({ut.Secp256k1Params._order} : Int)'
         CONSTS['Secp256k1Params._field'] = f'({ut.Secp256k1Params._field} : Int)'
+        for k in ('P2PKH_ADDRESS', 'P2SH_ADDRESS'): CONST_STRS[k] = getattr(consts, k)
         CONSTS['HEADER_SIZE'] = f'({consts.HEADER_SIZE} : Int)'
         CONSTS['NEGATIVE_SATOSHI'] = f'({consts.NEGATIVE_SATOSHI} : Int)'
         for k in ('ABSOLUTE_TIMELOCK_SEQUENCE', 'REPLACE_BY_FEE_SEQUENCE', 'EMPTY_TX_SEQUENCE'):
